@@ -145,12 +145,23 @@ CLAIMS = {
          "cont_stopped_ex/cont_stopped/apply_new_status/waitpid are assumed contracts (HashMap iteration, ptrace); recorded "
          "precondition: the queued threads are pairwise distinct (a thread in signal-delivery-stop cannot stop again before it is resumed).",
          "Kani full-domain proofs + Verus modular proof with ghost delivery history on the extracted real function", "4.1/C10"),
+ "C17": ("proof",
+         "Verus proof (any number of insertions, any path lengths, any value type) of the real PathSearchIndex::insert_w_head, "
+         "PathSearchIndex::insert and PathSearchIndex::get against an abstract view (the log of inserted (component path, value) pairs, "
+         "connected to heads/tails/data/next_nonce by a representation invariant): every insertion appends exactly one entry and keeps "
+         "the invariant; get(needle) returns the values of exactly the entries whose component path ends with the needle's components, "
+         "in insertion order, each once: no partial-component match, no miss, nothing invented; no index panic or nonce overflow. Scope: the index "
+         "data structure used for function templates and file templates; how paths are built from DWARF/linkage names, which units "
+         "and objects are searched, and `symbol <regex>` are not covered.",
+         "assumed: the string interner is a function of the string; splitting the needle on the delimiter (str ops) is one outlined "
+         "expression with an assumed result; std contracts of HashMap::entry().or_insert_with, slice::ends_with and the "
+         "filter/filter_map/collect chain (closure bodies are spliced verbatim into a hand-written composing loop); signature substitution for impl IntoIterator/AsRef<str> parameters.",
+         "Verus data-structure invariant + abstract view on the mechanically extracted real functions", "8.8/C17"),
 }
 
 NA = {
  "C03": "step semantics are defined relative to the debuggee's real instruction trace and call depth; no function on the path has a postcondition expressible without the debuggee's execution semantics",
  "C09": "all-stop / exactly-once over thread interleavings is a kernel scheduling property; Kani has no concurrency, Verus would need permission types threaded through unchangeable code, and per-thread state lives in a std HashMap (out of CBMC's reach)",
- "C17": "PathSearchIndex is std HashMap entry API + string_interner + str::split behind a global Mutex: in Verus every step would be an assumed contract, a rewrite would be a model, and a bounded Kani probe did not terminate (6 min / 2.8 GB)",
  "C20": "decoding of tokio-internal layouts through DQE evaluation on a live process; nothing algorithmic of its own to put under contract",
 }
 
